@@ -725,6 +725,8 @@ func TestVerifC19Exp(t *testing.T) {
 	jobs = append([]job{
 		{vECfg{sig: 2, queue: true, storage: true, capacity: 10, retry: true}, []vEOut{{4, 0}}, []vEOp{{0, []int{5}}}, "witness-S2"},
 		{vECfg{sig: 2, batcher: true, bmin: 100}, []vEOut{{2, 0}}, []vEOp{{0, []int{5}}}, "witness-WFR"},
+		// C19/Proofs8.v persistent_size_undercounts_l: 3 gated Sends on a persistent queue, the size gauge reads 2
+		{vECfg{sig: 2, queue: true, storage: true, capacity: 5, telMode: 1}, nil, []vEOp{{1, []int{1, 1, 1}}}, "witness-PQ-size"},
 	}, jobs...)
 	ncases = len(jobs)
 	res := make([]vExpObs, ncases)
